@@ -222,6 +222,13 @@ func (c *Ctx) SeenCount(set string) int {
 	return len(c.sets[set])
 }
 
+// WantSample reports whether another literal case is still wanted.
+func (c *Ctx) WantSample() bool {
+	c.mu.Lock()
+	defer c.mu.Unlock()
+	return len(c.samples) < 5
+}
+
 // Sample keeps up to five literal cases for the evidence.
 func (c *Ctx) Sample(v any) {
 	c.mu.Lock()
